@@ -30,8 +30,8 @@ TStep == /\ tid <= N /\ StepWhy = ""
          /\ UNCHANGED <<tid, seen>>
 
 \* digest agreement inside a group (checked when a trace has been accepted to its end)
-DigestWhy == IF "determ" \in On /\ Hdr.group # "" /\ Hdr.group \in DOMAIN seen /\ seen[Hdr.group] # Hdr.digest
-             THEN "determ:call-graph-or-result-differs-across-schedules" ELSE ""
+DigestWhy == IF "callgraph" \in On /\ Hdr.group # "" /\ Hdr.group \in DOMAIN seen /\ seen[Hdr.group] # Hdr.digest
+             THEN "callgraph:call-graph-or-result-differs-across-schedules" ELSE ""
 
 TNextTrace ==
   /\ tid <= N /\ StepWhy # ""
